@@ -453,6 +453,42 @@ macro_rules! table_get_or_insert {
 table_get_or_insert!(tbl_q_get_or_insert_ab, RAB, byte = 3, entity = (A, B));
 table_get_or_insert!(tbl_t_get_or_insert_b, RAB, byte = 2, entity = (B));
 
+// Archetypes::clone keeps the by-type lookup pointing at its own tables.
+// Measured: `Archetypes::shrink_to_fit` on a table of two archetypes (one row in all) does not finish
+// in 900 s (5.8 GB and growing); the decision it rests on -- `Archetype::is_empty` is about rows -- is
+// checked at archetype level (`rows_`).
+
+#[kani::proof]
+#[kani::unwind(18)]
+pub fn tbl_q_clone_by_type_lookup_names_own_table() {
+    let mut archetypes = Archetypes::<RAB>::new();
+    // SAFETY: the entity type's components are exactly A and B.
+    let original = unsafe { ident_ptr(archetypes.get_mut_or_insert_new_for_entity::<crate::Entity!(A, B), _>()) };
+    // SAFETY: the returned identifier map is kept alive as long as the clone (both are forgotten at the end).
+    let (mut copy, map) = unsafe { archetypes.clone() };
+    vassert!(copy.verif_raw().0.len() == 1, "the clone has the same tables");
+    // SAFETY: as above.
+    let in_copy = unsafe { ident_ptr(copy.get_mut_or_insert_new_for_entity::<crate::Entity!(A, B), _>()) };
+    vassert!(copy.verif_raw().0.len() == 1, "the by-type path finds the clone's own table instead of making another");
+    vassert!(in_copy != original, "and it is the clone's table, not the source's");
+    let own = archs(&copy);
+    let mut k = 0;
+    let mut found = false;
+    while k < TCAP {
+        if let Some(a) = own[k] {
+            if ident_ptr(a) == in_copy {
+                found = true;
+            }
+        }
+        k += 1;
+    }
+    vassert!(found, "the archetype returned is stored in the clone");
+    kani::cover!(true, "reached end");
+    core::mem::forget(map);
+    core::mem::forget(copy);
+    core::mem::forget(archetypes);
+}
+
 // Measured: `Archetypes::eq` between a table of one archetype and a table of two (one row) does not
 // fit in 20 GB (2.9 M program steps).  Table-level equality stays outside the claim (C16 is claimed at
 // the level of `Archetype::component_eq`).
